@@ -810,6 +810,12 @@ class Simulation(Structure):
         if self.python_unit_l == 0 or self.python_unit_m == 0 or self.python_unit_t == 0:
             raise AttributeError("Must set sim.units before calling convert_particle_units in order to know what units to convert from.")
         new_l, new_t, new_m = check_units(args)
+        # Integrator history (IAS15 predictor and compensated-summation arrays, WHFast/MERCURIUS internal coordinates) is in the old units.
+        clibrebound.reb_simulation_synchronize(byref(self))
+        clibrebound.reb_integrator_ias15_reset(byref(self))
+        self.ri_whfast.recalculate_coordinates_this_timestep = 1
+        self.ri_mercurius.recalculate_coordinates_this_timestep = 1
+        self.ri_mercurius.recalculate_r_crit_this_timestep = 1
         for p in self.particles:
             units_convert_particle(p, hash_to_unit(self.python_unit_l), hash_to_unit(self.python_unit_t), hash_to_unit(self.python_unit_m), new_l, new_t, new_m)
         self.update_units((new_l, new_t, new_m))
